@@ -346,4 +346,13 @@ def stale_alias(repo: Repo) -> RuleRun:
 
 stale_alias.rule_id = "C18.STALE-ALIAS"
 
-RULES = [scan, corner_table, frame_signs, triangle_partition, affine_kinds, stale_alias]
+def no_stale_lazy_cache(repo: Repo) -> RuleRun:
+    """Viewing directions depend on the block they are computed for: nothing computed from a call argument is cached on the re-orienter / finder."""
+    from ..memo import lazy_cache_rule
+
+    return lazy_cache_rule(repo, PROP, "C18.NO-STALE-CACHE", ('modify.',))
+
+
+no_stale_lazy_cache.rule_id = "C18.NO-STALE-CACHE"
+
+RULES = [scan, corner_table, frame_signs, triangle_partition, affine_kinds, stale_alias, no_stale_lazy_cache]
